@@ -51,15 +51,17 @@ func parseRaceReports(glob string) []map[string]interface{} {
 				continue
 			}
 			// stanzas: "Read at", "Previous write at", ... (the two conflicting accesses); stop at "Goroutine"
-			var tops []string
+			var tops []string // the innermost pkg/fswallet frame of each of the two access stacks
 			var lines []string
 			inAccess := false
+			haveTop := false
 			for _, ln := range strings.Split(rep, "\n") {
 				t := strings.TrimSpace(ln)
 				switch {
 				case strings.HasPrefix(t, "Read at"), strings.HasPrefix(t, "Write at"), strings.HasPrefix(t, "Previous read at"),
 					strings.HasPrefix(t, "Previous write at"), strings.HasPrefix(t, "Atomic"), strings.HasPrefix(t, "Previous atomic"):
 					inAccess = true
+					haveTop = false
 					lines = append(lines, t)
 					continue
 				case strings.HasPrefix(t, "Goroutine"), strings.HasPrefix(t, "Location"):
@@ -68,8 +70,9 @@ func parseRaceReports(glob string) []map[string]interface{} {
 				if inAccess {
 					if m := frameRe.FindStringSubmatch(ln); m != nil {
 						lines = append(lines, "  "+m[1])
-						if strings.Contains(m[1], "/pkg/fswallet.") {
+						if strings.Contains(m[1], "/pkg/fswallet.") && !haveTop {
 							tops = append(tops, m[1])
+							haveTop = true
 						}
 					} else if strings.Contains(t, "pkg/fswallet/") {
 						lines = append(lines, "    "+t)
@@ -254,6 +257,10 @@ func main() {
 		}
 		writeCurrent(*out, map[string]interface{}{"kind": "stress", "config": cfg})
 		res := runStress(cfg, pool)
+		if res.skipped {
+			st.Hit("env/inotify-instances-exhausted (stress run skipped)")
+			continue
+		}
 		runs++
 		if res.fatal {
 			st.ImplFailures = append(st.ImplFailures, res.fails[len(res.fails)-1])
